@@ -168,6 +168,37 @@ def run(ctx):
             ctx.distinct.add_rows(np.full(le.size, p), np.full(le.size, lo), np.full(le.size, hi), u)
         if ci < 3:
             ctx.sample({"index": p, "lower": lo, "upper": hi, "u": grid[:6].tolist()})
+    # ---- "they leave the acceptance integral unchanged": the two factors as returned by the real
+    #      Spectra call go into the real Monte Carlo integral of both channels, one after the other on
+    #      the same arrays (what a full run does); the results equal those with factors (1, 1)
+    from nuspacesim.simulation.geometry.region_geometry import RegionGeom, RegionGeomToO
+
+    for spec_ in (Simulation.PowerSpectrum(index=2.0, lower_bound=8.0, upper_bound=11.5), Simulation.PowerSpectrum(index=1.0, lower_bound=7.0, upper_bound=12.0), Simulation.PowerSpectrum(index=0.0, lower_bound=6.0, upper_bound=6.5), Simulation.MonoSpectrum(log_nu_energy=9.0)):
+        for mode in ("Diffuse", "Target"):
+            cgi = NssConfig()
+            cgi.simulation.mode = mode
+            cgi.simulation.spectrum = spec_
+            cgi = core.validated(cgi, "C12 integral configuration")
+            np.random.seed(int(rng.integers(2**31)))
+            g_ = RegionGeom(cgi) if mode == "Diffuse" else RegionGeomToO(cgi)
+            g_(600 if mode == "Diffuse" else 1500)
+            nk_ = len(g_.beta_rad())
+            if nk_ == 0:
+                continue
+            _, sn_, sw_ = S.Spectra(cgi)(nk_)
+            trig_, cos_, pex_ = rng.uniform(0, 20, nk_), np.cos(rng.uniform(0, 0.1, nk_)), 10 ** rng.uniform(-6, 0, nk_)
+            kw_ = {} if mode == "Diffuse" else {"lenDec": np.zeros(nk_)}
+            res = {}
+            for tag, (a_, b_) in (("real", (sn_, sw_)), ("unit", (1.0, 1.0))):
+                t1, c1, p1 = trig_.copy(), cos_.copy(), pex_.copy()
+                k1 = {k_: v_.copy() for k_, v_ in kw_.items()}
+                o_ = g_.mcintegral(t1, c1, p1, 10.0, a_, b_, **({} if mode == "Diffuse" else dict(k1, method="Optical")))
+                r_ = g_.mcintegral(t1, float(np.cos(cgi.simulation.max_cherenkov_angle)), p1, 10.0, a_, b_, **({} if mode == "Diffuse" else dict(k1, method="Radio")))
+                res[tag] = (float(o_[0]), float(o_[1]), int(o_[2]), float(r_[0]), float(r_[1]), int(r_[2]))
+            ctx.count("integral-unchanged")
+            ok_ = all((x == y) or abs(x - y) <= 1e-12 * abs(y) for x, y in zip(res["real"], res["unit"]))
+            if not ok_:
+                ctx.violation("product", f"{mode} {spec_!r}: with the factors returned by Spectra ({sn_!r}, {sw_!r}) the (optical, radio) integrals evaluated one after the other on the same arrays are {res['real']!r}; with factors (1, 1) they are {res['unit']!r}", {"mode": mode, "spectrum": repr(spec_)})
     # ---- the diagnostic plot is an observer: event i still carries the image of its own uniform number
     from .. import plotobs
 
@@ -224,7 +255,7 @@ def run(ctx):
     ctx.observe("ill_conditioned_index_cases_judged_with_widened_band", nobs_ill)
     ctx.observe("accepted_by_log_energy_band_1e-12", nrepr)
     ctx.count("contracts", ncontract["n"])
-    for m in ("plots", "mono", "bounds", "product", "cdf", "monotone", "no-raise", "contracts", "history"):
+    for m in ("integral-unchanged", "plots", "mono", "bounds", "product", "cdf", "monotone", "no-raise", "contracts", "history"):
         ctx.require(m)
     return ctx.finish(
         rule="(index, lower, upper) from a boundary catalogue (index in {0,.5,.999,1,1.001,...,4} x 5 bounds) plus seeded random; per configuration 35 uniform numbers (14 hostile incl. 0, denormals, 1-2^-53, 1; grid; random) through the RNG stub and 40 from the real generator observed by the RNG spy; a case is one distinct (index, bounds, u)",
